@@ -54,17 +54,34 @@ def positionN (plateSize : Nat) (c : Nat) : Option Nat :=
 def position (plateSize : UInt32) (c : UInt16) : Option UInt32 :=
   (positionN plateSize.toNat c.toNat).map UInt32.ofNat
 
-/-- binary32 bit pattern of a non-zero integer of magnitude below 2^24 (exact) -/
-def f32OfIntN (n : Int) : Nat :=
-  if n == 0 then 0 else
-  let m := n.natAbs
-  let l := Nat.log2 m
-  signBitN (decide (n < 0)) + (l + 127) * 2 ^ 23 + (m * 2 ^ (23 - l) - 2 ^ 23)
+/-! The 128-unit grid, in fixed-width arithmetic (so that facts about all 65 536 coordinates can be
+decided by bit-blasting): plate coordinate `c` (i16) has its centre at the integer `128 c + 64`, whose
+magnitude is between 64 and 2^22 + 64 and therefore exactly representable. -/
 
-/-- the 128-unit grid: plate coordinate `c` has its centre at `128 c + 64` -/
-def gridPosN (c : Nat) : Nat := f32OfIntN (128 * i16Val c + 64)
+/-- index of the most significant set bit of a 32-bit number -/
+def msb4 (x : UInt32) : UInt32 := if x >>> 16 ≠ 0 then 16 else 0
+def msb3 (x : UInt32) : UInt32 := msb4 x + (if x >>> (msb4 x + 8) ≠ 0 then 8 else 0)
+def msb2 (x : UInt32) : UInt32 := msb3 x + (if x >>> (msb3 x + 4) ≠ 0 then 4 else 0)
+def msb1 (x : UInt32) : UInt32 := msb2 x + (if x >>> (msb2 x + 2) ≠ 0 then 2 else 0)
+def msb (x : UInt32) : UInt32 := msb1 x + (if x >>> (msb1 x + 1) ≠ 0 then 1 else 0)
 
-def gridPos (c : UInt16) : UInt32 := UInt32.ofNat (gridPosN c.toNat)
+def mag32 (n : UInt32) : UInt32 := if n ≥ 0x80000000 then 0 - n else n
+
+/-- binary32 bit pattern of a non-zero two's complement integer `n` of magnitude below 2^24 (such an
+integer is exactly representable): sign, exponent field `127 + ⌊log2 |n|⌋`, and the magnitude shifted so
+that its leading bit lands on (and is dropped as) the implicit bit -/
+def f32OfInt32 (n : UInt32) : UInt32 :=
+  (if n ≥ 0x80000000 then (0x80000000 : UInt32) else 0) |||
+  ((msb (mag32 n) + 127) <<< 23) |||
+  ((mag32 n <<< (23 - msb (mag32 n))) &&& 0x7FFFFF)
+
+/-- sign extension of an i16 bit pattern -/
+def sext16 (c : UInt16) : UInt32 := if c ≥ 0x8000 then c.toUInt32 ||| 0xFFFF0000 else c.toUInt32
+
+/-- `128 c + 64` as a two's complement 32-bit number -/
+def gridInt (c : UInt16) : UInt32 := 128 * sext16 c + 64
+
+def gridPos (c : UInt16) : UInt32 := f32OfInt32 (gridInt c)
 
 def plateName (i : Nat) : Bytes := fmtDec04 i ++ [0x2e, 0x6d, 0x64, 0x6c]
 
